@@ -1,5 +1,6 @@
 import Driver.Proto
 import PqModel.SortCmp
+import PqModel.SortRep
 
 /-! C10 ops: the range kernel and the optional column buffer mirror run over a history.
 
@@ -8,6 +9,8 @@ import PqModel.SortCmp
    ops: `n:<d>:<k>` k null rows of level d written one by one (-1) · `N:<d>:<k>` a null run of the
         typed path (`broadcastValueInt32`) · `v:<x;y;…>` a run of values · `s:<i>:<j>` Swap ·
         `l:<i>:<j>` Less (one result bit each, in order) · `p` Page()
+`repcol <m> <nullsFirst 0/1> <desc 0/1> <op>…` -> `ok rows=<off/base,…> lv=<rep/def,…> base=… less=…`
+   ops: `w:<rep/def/value|n;…>` one row · `s:<i>:<j>` · `l:<i>:<j>` · `p`
 
 The definitions below select the mirror of the library *as it currently is* (after the repairs
 F13/F14/F24; the as-found transliterations `bcastAsmF14`, `OptCol.pageF24`, `Col.lessF13` stay in the
@@ -49,7 +52,49 @@ def stepOp (k : Kernel) (purego : Bool) (m : Nat) (desc nf : Bool) (st : St) (to
 
 def showInts (xs : List Int) : String := showList (fun (x : Int) => toString x) xs
 
+
+/-! ### repeated column buffer -/
+
+structure RSt where
+  col : RepCol Int
+  less : List Bool
+
+def parseCell (t : String) : Option (RCell Int) :=
+  match t.splitOn "/" with
+  | [r, d, v] =>
+    match r.toNat?, d.toNat?, (if v == "n" then some none else (v.toInt?).map some) with
+    | some r, some d, some v => some (r, d, v)
+    | _, _, _ => none
+  | _ => none
+
+def rstepOp (m : Nat) (desc nf : Bool) (st : RSt) (tok : String) : Option RSt :=
+  match tok.splitOn ":" with
+  | ["w", cs] => ((cs.splitOn ";").mapM parseCell).map fun row => { st with col := st.col.writeRow row }
+  | ["s", i, j] => (parse2 i j).map fun (i, j) => { st with col := st.col.swap i j }
+  | ["l", i, j] => (parse2 i j).map fun (i, j) =>
+      { st with less := st.col.less (fun a b => decide (a < b)) desc nf m i j :: st.less }
+  | ["p"] => some { st with col := st.col.page m }
+  | _ => none
+
+def showPairs (xs : List (Nat × Nat)) : String := showList (fun (p : Nat × Nat) => s!"{p.1}/{p.2}") xs
+
+def handleRep (toks : List String) : Option String :=
+  match toks with
+  | "repcol" :: m :: nf :: desc :: ops => some <|
+    match parseNat? m with
+    | some m =>
+      match ops.foldlM (rstepOp m (desc == "1") (nf == "1")) { col := RepCol.empty, less := [] } with
+      | some st =>
+        let bits := if st.less.isEmpty then "-" else String.ofList (st.less.reverse.map fun b => if b then '1' else '0')
+        s!"ok rows={showPairs st.col.rows} lv={showPairs st.col.lv} base={showInts st.col.base} less={bits}"
+      | none => "bad-op"
+    | none => "bad-op"
+  | _ => none
+
 def handle (toks : List String) : Option String :=
+  match handleRep toks with
+  | some r => some r
+  | none =>
   match toks with
   | ["bcast", variant, base, n] => some <|
     match kernelFn variant, parseInt? base, parseNat? n with
